@@ -1,0 +1,41 @@
+//go:build verif
+
+/*
+   Copyright 2020 The Compose Specification Authors.
+
+   Licensed under the Apache License, Version 2.0 (the "License");
+   you may not use this file except in compliance with the License.
+   You may obtain a copy of the License at
+
+       http://www.apache.org/licenses/LICENSE-2.0
+
+   Unless required by applicable law or agreed to in writing, software
+   distributed under the License is distributed on an "AS IS" BASIS,
+   WITHOUT WARRANTIES OR CONDITIONS OF ANY KIND, either express or implied.
+   See the License for the specific language governing permissions and
+   limitations under the License.
+*/
+
+package graph
+
+import "sync/atomic"
+
+// VerifHook, when set (build tag `verif` only), is invoked at the entry of the
+// traversal's primitive steps so that an external scheduler can stretch the
+// windows between them. It must not be changed while a traversal is running.
+var verifHook atomic.Pointer[func(point, key string)]
+
+// SetVerifHook installs (or, with nil, removes) the yield-point callback.
+func SetVerifHook(fn func(point, key string)) {
+	if fn == nil {
+		verifHook.Store(nil)
+		return
+	}
+	verifHook.Store(&fn)
+}
+
+func verifYield(point, key string) {
+	if fn := verifHook.Load(); fn != nil {
+		(*fn)(point, key)
+	}
+}
